@@ -86,6 +86,19 @@ Example C12_example_untyped_literal :
   forallb (node_ok (nodes_prog ex_untyped)) (run ex_untyped) = true.
 Proof. vm_compute. auto 10. Qed.
 
+(* import "bytes"; type Base int; type B struct { *Base; bytes.Buffer; x, y int } :
+   an embedded field is recorded under its type-name identifier, at that identifier's own position
+   (the star / the package qualifier are not part of it), and the same identifier is a use of the type *)
+Definition ex_embed : prog :=
+  [DImport [] 8 200; DType (Id 100 22) (Id 1 27);
+   DStruct (Id 101 37) [Emb [] (Id 100 50); Emb [Id 200 56] (Id 102 62)] [Id 103 70; Id 104 73] [Id 1 75]].
+Example C12_example_embedded_fields :
+  In (EvDef (Id 100 50) (Obj 100 (InFile 50) KVar)) (run ex_embed) /\
+  In (EvUse (Id 100 50) (Obj 100 (InFile 22) KType)) (run ex_embed) /\
+  In (EvDef (Id 102 62) (Obj 102 (InFile 62) KVar)) (run ex_embed) /\
+  forallb def_ok (run ex_embed) = true /\ forallb use_ok (run ex_embed) = true.
+Proof. vm_compute. auto 20. Qed.
+
 (* ---- non-vacuity: a program with shadowing satisfies all hypotheses; the resolver resolves lexically ---- *)
 
 (* var g = 1;  func f(g int) int { x := g; { x := x; g = x }; return x } *)
